@@ -69,8 +69,8 @@ def msgStr (m : Msg) : String :=
   s!"ok id={labelStr m.id.str} msm={if m.ismsm T then 1 else 0} unk={if m.unknown then 1 else 0} ser={ser} attrs={attrsStr m.attrs}"
 
 def eventStr : Event → String
-  | .frame raw none => s!"F:{bytesToHex raw}:None"
-  | .frame raw (some m) => s!"F:{bytesToHex raw}:{labelStr m.id.str}"
+  | .frame raw none => s!"F:{bytesToHex raw}:None:-"
+  | .frame raw (some m) => s!"F:{bytesToHex raw}:{labelStr m.id.str}:{attrsStr m.attrs}"
   | .handler e => "H:" ++ libName e
   | .raised e => "R:" ++ libName e
   | .foreign e => "X:" ++ foreignName e
